@@ -18,9 +18,12 @@ def mark(ident, mode="both"):
 
 
 class ConfGen:
-    def __init__(self, seed: int):
+    def __init__(self, seed: int, plain_wire: bool = False):
         self.r = random.Random(seed * 104729 + 7)
         self.n = 0
+        # plain_wire: no strategies and no dialects anywhere -- the documents are the built-in basic forms (subjects of the JSON
+        # Schema checks, where a user strategy makes the document whatever the user says); alias sources collide more often
+        self.plain_wire = plain_wire
 
     def fresh(self, base):
         self.n += 1
@@ -113,16 +116,16 @@ class ConfGen:
                 opts.append(["aalias", "B_" + fname])
             elif p < 0.4:
                 cfg_aliases.append([fname, "C_" + fname])
-            if p < 0.08 and r.random() < 0.5:
+            if p < 0.27 and r.random() < (0.5 if self.plain_wire else 0.15):
                 cfg_aliases.append([fname, "C_" + fname])          # two sources on one field: the more specific one wins
-            if t in (DATE, LD, ["opt", DATE]) and r.random() < 0.2:
+            if not self.plain_wire and t in (DATE, LD, ["opt", DATE]) and r.random() < 0.2:
                 opts.append(["strategy", r.choice([mark("fs_" + fname), mark("fs_" + fname, "ser"), mark("fs_" + fname, "deser"), ["pass_through"]])])
             q = r.random()
             if need_default or q < 0.45:
                 need_default = True
                 if t[0] == "opt" and r.random() < 0.5:
                     dflt = ["val", ["none"]]
-                elif t[0] != "opt" and t[0] in ("int", "str", "date") and r.random() < 0.15:
+                elif not self.plain_wire and t[0] != "opt" and t[0] in ("int", "str", "date") and r.random() < 0.15:
                     dflt = ["val", ["none"]]                        # a None default on a non-Optional annotation
                 else:
                     v = self.value(t if t[0] != "opt" or r.random() < 0.8 else t[1])
@@ -138,16 +141,23 @@ class ConfGen:
         cfg = []
         for o, pr in (("omit_none", 0.25), ("omit_default", 0.2), ("serialize_by_alias", 0.4), ("forbid_extra_keys", 0.25),
                       ("allow_deserialization_not_by_alias", 0.3)):
+            if self.plain_wire:
+                # C06 speaks of documents serialized "with default options (by alias where aliases exist)"
+                if o == "serialize_by_alias":
+                    cfg.append([o, True])
+                elif o in ("forbid_extra_keys", "allow_deserialization_not_by_alias") and r.random() < pr:
+                    cfg.append([o, True])
+                continue
             if r.random() < pr:
                 cfg.append([o, r.random() < 0.8])
         if cfg_aliases:
             cfg.append(["aliases", cfg_aliases])
-        fl = [f for f in FLAGS if r.random() < 0.4]
+        fl = [] if self.plain_wire else [f for f in FLAGS if r.random() < 0.4]
         if fl:
             cfg.append(["flags", fl])
-        if r.random() < 0.3:
+        if not self.plain_wire and r.random() < 0.3:
             cfg.append(["dialect", self.dialect("CD" + name)])
-        if r.random() < 0.2:
+        if not self.plain_wire and r.random() < 0.2:
             t = self.table("cs" + name.lower())
             if t:
                 cfg.append(["cfg_strategy", t])
